@@ -176,6 +176,7 @@ AcceptGroupReq(g, env, t, bf) ==
       gr1 == [gr EXCEPT !.info = Put(@, t.id, [src |-> t.src, dst |-> t.dst, idx |-> t.idx, dstChain |-> t.dstChain])]
   IN [g EXCEPT !.acc = Put(@, <<t.src, t.dst>>, IF IsBatchDst(env, t) THEN Get(@, <<t.src, t.dst>>, 0) + 1 ELSE t.idx),
                !.grp = Put(@, gid, gr1), !.kid = Put(@, t.id, gid),
+               !.hub = IF t.dstChain = env.bxh THEN @ \cup {<<t.src, t.dst>>} ELSE @,
                !.failedOnce = IF gr.state # "BEGIN" /\ gr.state # "SUCCESS" THEN @ \cup {gid} ELSE @]
 
 \* what the implementation makes of a notice whatever the current status (used to follow it after C04_Step was reported)
